@@ -26,12 +26,12 @@ def run(R):
     variants = ["native", "portable"]
     R.build_all(variants)
     traces = []
-    nrun = 12 if thorough else 4
+    nrun = 32 if thorough else 4
     for i in range(nrun):
         variant = variants[i % 2]
         exe = R.cc("rand_driver", ["rand_driver.c"], variant)
         tp = R.path("rand", "t%d.ndjson" % i)
-        R.run([exe, str(R.seed + i), "400" if thorough else "60", tp], ok_codes=(0, 70))
+        R.run([exe, str(R.seed + i), "1500" if thorough else "60", tp], ok_codes=(0, 70))
         traces.append((tp, variant, R.seed + i))
     res = R.tlc_shards("sys/TraceRandomSource.tla", "TraceRandomSource.cfg", [{"TRACE": t[0]} for t in traces], timeout=1800)
     nacc = 0
